@@ -98,6 +98,10 @@ type c15State struct {
 	root   reflect.Value
 	parent reflect.Value
 	pool   []poolKey
+	// results of the previous Keys() / Values() observation, kept to see that they stay put
+	heldKeys, heldValues reflect.Value
+	heldKeysWere         []string
+	heldValuesWere       []uintptr
 	order  []int                 // model: pool indices in insertion order
 	vals   map[int]reflect.Value // model: pool index -> element pointer
 	st     *execStats
@@ -135,6 +139,7 @@ func (s *c15State) check(after string) *Violation {
 	om := s.om()
 	sig := "C15:" + s.t.Kind2() + ":state"
 	if om.IsNil() {
+		s.heldKeys, s.heldValues = reflect.Value{}, reflect.Value{}
 		if len(s.order) != 0 {
 			return violation("C15", "model-mismatch", sig, "after %s: ordered map field is nil but the model holds %d entries", after, len(s.order))
 		}
@@ -149,6 +154,23 @@ func (s *c15State) check(after string) *Violation {
 	}); p != nil {
 		return violation("C15", "panic", "C15:panic:observe", "after %s: Keys/Values/Len panicked: %v", after, p.v)
 	}
+	// what Keys() and Values() returned after the previous call is still in our hands: a
+	// copy does not change when later operations run (a result that aliases a buffer the
+	// map keeps reusing would)
+	if s.heldKeys.IsValid() {
+		now := make([]string, s.heldKeys.Len())
+		for i := range now {
+			now[i] = s.keyStr(s.heldKeys.Index(i))
+		}
+		if strings.Join(now, " ") != strings.Join(s.heldKeysWere, " ") {
+			return violation("C15", "model-mismatch", "C15:"+s.t.Kind2()+":keys-retained", "after %s: the slice Keys() returned earlier changed from %v to %v", after, s.heldKeysWere, now)
+		}
+		for i := 0; i < s.heldValues.Len() && i < len(s.heldValuesWere); i++ {
+			if s.heldValues.Index(i).Pointer() != s.heldValuesWere[i] {
+				return violation("C15", "model-mismatch", "C15:"+s.t.Kind2()+":values-retained", "after %s: element %d of the slice Values() returned earlier changed", after, i)
+			}
+		}
+	}
 	want := make([]string, len(s.order))
 	for i, pi := range s.order {
 		want[i] = s.pool[pi].Str
@@ -156,6 +178,11 @@ func (s *c15State) check(after string) *Violation {
 	got := make([]string, keys.Len())
 	for i := range got {
 		got[i] = s.keyStr(keys.Index(i))
+	}
+	s.heldKeys, s.heldKeysWere = keys, got
+	s.heldValues, s.heldValuesWere = values, nil
+	for i := 0; i < values.Len(); i++ {
+		s.heldValuesWere = append(s.heldValuesWere, values.Index(i).Pointer())
 	}
 	if strings.Join(got, " ") != strings.Join(want, " ") {
 		return violation("C15", "model-mismatch", "C15:"+s.t.Kind2()+":keys", "after %s: Keys() = %v, insertion-ordered model = %v", after, got, want)
